@@ -85,7 +85,13 @@ def check(R):
         rb = exc.calls('fabric::Fabrics::remove')[0]
         al = exc.calls('fabric::Fabrics::add_load')
         R.floor('add_load in roll-back', len(al), 1)
-        R.cut('P2', exc, 'reload the persisted copy', [t.bb for t in al], 'fabrics.remove ok', lambda: R.call_guard(exc, 'fabric::Fabrics::remove'))
+        def dropped_or_absent():
+            e = set(R.call_guard(exc, 'fabric::Fabrics::remove'))
+            for t in exc.calls('fabric::Fabrics::get'):
+                if t.bb < rb.bb or rb.bb not in prims.reach(exc, exc.succ[t.bb]) or True:
+                    e |= prims.track_result(F, exc, t).failure
+            return e
+        R.cut('P2', exc, 'reload the persisted copy', [t.bb for t in al], 'the in-memory fabric was dropped (fabrics.remove ok) or was not there any more', dropped_or_absent)
         # AddNOC scope guard: the fabric being undone was created in the same closure
         an = bodies_of(F, NOC + '::handle_add_noc')
         has_add = any('failsafe::FailSafe::add_noc' in b.calls_summary for b in an)
